@@ -170,3 +170,14 @@ PROPS = {
 }
 
 NOT_APPLICABLE = {}
+
+# theorem lists come from the Props files themselves (every "Theorem Cxx_..." there is audited)
+import os as _os, re as _re
+_props_dir = _os.path.join(_os.path.dirname(_os.path.dirname(_os.path.abspath(__file__))), "coq", "Props")
+for _pid, _cfg in PROPS.items():
+    _path = _os.path.join(_props_dir, _pid + ".v")
+    if _os.path.exists(_path):
+        _found = _re.findall(r"^Theorem (%s_\w+)" % _pid, open(_path).read(), _re.M)
+        for _t in _found:
+            if _t not in _cfg["theorems"]:
+                _cfg["theorems"].append(_t)
